@@ -481,7 +481,7 @@ def ff_encodings(case):
     default (utf-8 here)."""
     if case['fmt'] == 'toml':
         return 'utf-8', 'utf-8'
-    d = case.get('enc') or 'utf-8'
+    d = case.get('enc') or case.get('default_enc') or 'utf-8'
     return case.get('enc_in') or d, case.get('enc_out') or d
 
 
@@ -493,11 +493,11 @@ def can_encode(text, enc):
         return False
 
 
-def run_wf(case):
+def _run_wf(case):
     import importlib
     F = FMT[case['fmt']]
     fmt = case['fmt']
-    enc = case.get('enc') if fmt != 'toml' else None
+    enc = wf_encoding(case)
     sb = Sandbox()
     try:
         extra = step_inputs(case)
@@ -561,7 +561,7 @@ def run_wf(case):
                 try:
                     for i, text in enumerate(case['pre']):
                         pp = os.path.join(pre_dir, f'legacy{i}.{F["ext"]}')
-                        with open(pp, 'w', encoding='utf-8') as f:
+                        with open(pp, 'w', encoding=enc or 'utf-8') as f:
                             f.write(text)
                         attempt(fetch_mod.run_step, Context({F['f']: {'path': pp, 'key': 'legacy'}}))
                         attempt(importlib.import_module(F['pm']).get_parsed_context, [pp])
@@ -600,6 +600,34 @@ def run_wf(case):
         sb.close()
 
 
+def with_default_encoding(fn, case):
+    """Run one case with pypyr's configured default file encoding set as the case says
+    (config.default_encoding; None = platform default), and put it back afterwards."""
+    from pypyr.config import config
+    old = config.default_encoding
+    config.default_encoding = case.get('default_enc')
+    try:
+        return fn(case)
+    finally:
+        config.default_encoding = old
+
+
+def run_wf(case):
+    return with_default_encoding(_run_wf, case)
+
+
+def run_ff(case):
+    return with_default_encoding(_run_ff, case)
+
+
+def wf_encoding(case):
+    """The encoding a filewrite / fetch pair without or with an explicit `encoding` uses:
+    explicit, else the configured default, else utf-8 (TOML: always utf-8, binary)."""
+    if case['fmt'] == 'toml':
+        return None
+    return case.get('enc') or case.get('default_enc')
+
+
 def make_text(fmt, obj, style):
     """Input document text for fileformat, in a chosen layout."""
     if fmt == 'json':
@@ -627,7 +655,7 @@ def make_text(fmt, obj, style):
     return style.get('lead', '') + tomli_w.dumps(obj, multiline_strings=bool(style.get('multiline')))
 
 
-def run_ff(case):
+def _run_ff(case):
     import importlib
     F = FMT[case['fmt']]
     fmt = case['fmt']
